@@ -8,6 +8,7 @@ import (
 	"fmt"
 	"os"
 	"path/filepath"
+	"regexp"
 	"strings"
 
 	intoto "github.com/in-toto/in-toto-golang/in_toto"
@@ -29,8 +30,44 @@ func scratch() string {
 
 func cleanupScratch() {
 	if scratchDir != "" {
-		os.RemoveAll(scratchDir)
+		safeRemoveAll(scratchDir)
 	}
+}
+
+var runDirRe = regexp.MustCompile(`^/tmp/verif-rd-[A-Za-z0-9]+-[0-9]+$`)
+var markerRe = regexp.MustCompile(`^/tmp/verif-mk-[A-Za-z0-9]+-[0-9]+$`)
+
+// safeRemoveAll deletes ONLY below this process's own scratch directory or one of the fixed
+// per-property run directories.  Arguments of cases are data (they are shrunk, replayed, possibly
+// edited by hand): a path taken from them must never reach os.RemoveAll unchecked — a shrunk
+// "rundir" once became "/tmp".
+func safeRemoveAll(p string) {
+	c := filepath.Clean(p)
+	ok := runDirRe.MatchString(c)
+	if scratchDir != "" && len(scratchDir) > len("/tmp/verif-corr-") && strings.HasPrefix(scratchDir, os.TempDir()+"/verif-corr-") {
+		if c == scratchDir || strings.HasPrefix(c, scratchDir+"/") {
+			ok = true
+		}
+	}
+	if !ok || strings.Contains(p, "..") {
+		panic("harness: refusing to delete " + p)
+	}
+	os.RemoveAll(c)
+}
+
+// checkedRunDir / checkedMarker validate the two fixed paths a case may carry.
+func checkedRunDir(p string) string {
+	if !runDirRe.MatchString(p) {
+		panic("harness: invalid run directory argument " + p)
+	}
+	return p
+}
+
+func checkedMarker(p string) string {
+	if !markerRe.MatchString(p) {
+		panic("harness: invalid marker argument " + p)
+	}
+	return p
 }
 
 func canonOf(md intoto.Metadata) any {
